@@ -76,6 +76,9 @@ type config struct {
 	Out int    `json:"out"` // number of outputs (Split: k, otherwise 1); 0 = no output iterator (worker groups)
 	Opt string `json:"opt"` // WorkerGroupConf options: e = ContinueOnError, p = ContinueOnPanic, c = IncludeContextErrors
 	Cb  string `json:"cb"`  // "plain": user functions ignore their context; "ctx": they return its error once it is cancelled
+	// an annotated operand / input delivers all its items and finishes normally, but its Close() is non-nil
+	Ann  int    `json:"ann"`  // MergeIterators: the annotated operand (1-based); other constructs: 1 = the input; 0 = none
+	AnnK string `json:"annk"` // "adderr": Iterator.AddError; "mapcont": output of a Map in ContinueOnError mode with a failing (extra) item
 }
 
 type step struct {
@@ -402,7 +405,37 @@ func part(n, k, p int) []int {
 	return out
 }
 
-func (w *world) source() *fun.Iterator[int] { return fun.SliceIterator(w.slice(seq(1, w.cfg.N))) }
+func (w *world) source() *fun.Iterator[int] {
+	if w.cfg.Ann == 1 && w.cfg.C != "merge" {
+		return w.annotated(seq(1, w.cfg.N))
+	}
+	return fun.SliceIterator(w.slice(seq(1, w.cfg.N)))
+}
+
+var errAnn = errors.New("recorded, non-fatal error of an annotated iterator")
+
+const poison = inBase - 1 // the extra item of a "mapcont" operand: its transformation fails, it is never delivered
+
+// annotated builds an iterator over the given items that delivers all of them and finishes normally,
+// yet carries a recorded error, so that its Close() is non-nil: nothing about it aborts a run.
+func (w *world) annotated(ids []int) *fun.Iterator[int] {
+	vals := w.slice(ids)
+	switch w.cfg.AnnK {
+	case "mapcont":
+		pos := len(vals) / 2
+		in := append(append(append([]int{}, vals[:pos]...), poison), vals[pos:]...)
+		return fun.Map(fun.SliceIterator(in), func(_ context.Context, v int) (int, error) {
+			if v == poison {
+				return 0, errAnn
+			}
+			return v, nil
+		}, fun.WorkerGroupConfNumWorkers(1), fun.WorkerGroupConfContinueOnError())
+	default: // "adderr"
+		it := fun.SliceIterator(vals)
+		it.AddError(errAnn)
+		return it
+	}
+}
 
 // build constructs the real pipeline.  Nothing may start a goroutine before the first advance.
 func (w *world) build() error {
@@ -442,6 +475,10 @@ func (w *world) build() error {
 	case "merge":
 		var srcs []*fun.Iterator[int]
 		for p := 0; p < c.K; p++ {
+			if c.Ann == p+1 {
+				srcs = append(srcs, w.annotated(part(c.N, c.K, p)))
+				continue
+			}
 			srcs = append(srcs, fun.SliceIterator(w.slice(part(c.N, c.K, p))))
 		}
 		w.outs = []*fun.Iterator[int]{fun.MergeIterators(srcs...)}
